@@ -742,15 +742,31 @@ func checkWiring(p *core.Program, r *core.Report) {
 		if len(rets) == 1 {
 			if phi, isPhi := rets[0].Results[0].(*ssa.Phi); isPhi {
 				okAcc := true
-				for _, e := range phi.Edges {
+				// flatten merge phis: the accumulator's updates are the leaves
+				var leaves []ssa.Value
+				seenL := map[ssa.Value]bool{}
+				var flat func(v ssa.Value, d int)
+				flat = func(v ssa.Value, d int) {
+					if d > 6 || seenL[v] {
+						return
+					}
+					seenL[v] = true
+					if inner, isP := v.(*ssa.Phi); isP {
+						for _, e := range inner.Edges {
+							flat(e, d+1)
+						}
+						return
+					}
+					leaves = append(leaves, v)
+				}
+				flat(phi, 0)
+				isAccPhi := func(v ssa.Value) bool { _, isP := v.(*ssa.Phi); return isP && seenL[v] }
+				for _, e := range leaves {
 					if z, isC := core.ConstUint(e); isC && z == 0 {
 						continue
 					}
-					if e == ssa.Value(phi) {
-						continue
-					}
 					bo, isB := e.(*ssa.BinOp)
-					if !isB || bo.Op != token.OR || bo.X != ssa.Value(phi) {
+					if !isB || bo.Op != token.OR || !isAccPhi(bo.X) {
 						okAcc = false
 						why = "accumulator edge " + core.Describe(e)
 						continue
